@@ -162,3 +162,58 @@ def _inside(c, key):
             return True
         c = c.parent
     return False
+
+
+def r_collapse_remembers(F, R, cat=None):
+    """whatever method of CollapseSequence stores an item in the inner region (push itself, a batch
+    hook, an extend-style helper) remembers it: on every path from an `inner.push` to the return
+    of the body (or closure) it sits in, `last_index` is written.  An item stored without being
+    remembered is not what the next push is compared with."""
+    from core import all_ctxs
+    from expr import nobb
+    n = 0
+    for b in F.bodies.values():
+        if b.self_adt != CS or b.kind != "AssocFn" or b.in_tests() or b.derived:
+            continue
+        inner = ("place", b.key, ("arg", 1), ("f:inner",))
+        lastp = ("place", b.key, ("arg", 1), ("f:last_index",))
+        ctxs = None
+        c0 = Ctx(b)
+        direct = any(callee_tag(t.get("callee")) == ("Push", "push") and len(t["args"]) == 2 and
+                     nobb(operand_tree(c0, t["args"][0])) == inner for (_, t) in b.calls())
+        if not direct and not any(st["k"] == "assign" and st["rv"]["k"] == "aggregate" and st["rv"].get("agg") == "closure"
+                                  for blk in b.blocks for st in blk["stmts"]):
+            continue
+        for c in all_ctxs(F, b):
+            body = c.body
+            pushes = [(bi, t) for (bi, t) in body.calls() if callee_tag(t.get("callee")) == ("Push", "push") and
+                      len(t["args"]) == 2 and nobb(operand_tree(c, t["args"][0])) == inner]
+            if not pushes:
+                continue
+            stores = set()
+            for bi in body.live_blocks():
+                for st in body.blocks[bi]["stmts"]:
+                    if st["k"] == "assign" and st["place"]["p"]:
+                        if nobb(place_tree(c, st["place"]))[:4] == lastp or any(
+                                cc is not None and r == ("arg", 1) and tuple(p[:1]) == ("f:last_index",) and cc.body is b
+                                for o in c.org.place(st["place"]) for (cc, (r, p)) in _base(c, o)):
+                            stores.add(bi)
+            for (bi, t) in body.calls():
+                if callee_tag(t.get("callee")) in (("Option", "insert"), ("Option", "replace"), ("Option", "get_or_insert")) and t["args"]:
+                    if nobb(operand_tree(c, t["args"][0])) == lastp:
+                        stores.add(bi)
+            for (bi, t) in pushes:
+                n += 1
+                R.saw(b)
+                tgt = t.get("target")
+                forgets = tgt is not None and bi not in stores and body.can_return_avoiding(stores, frm=tgt)
+                R.check("R-COLLAPSE", b.label(), not forgets, construct="an item stored in the inner region is remembered as the last one",
+                        where="%s:%s" % (body.file, t["line"]),
+                        detail="last_index is written on every path from this inner.push to the return" if not forgets else
+                        "some path from this inner.push returns without writing last_index: the next push is compared with an older item")
+    R.floor("R-COLLAPSE", "inner.push sites in CollapseSequence methods", n, 1)
+
+
+def _base(c, o):
+    from core import base_places
+    return base_places(c, o)
